@@ -493,6 +493,86 @@ example : HashOf (⟨⟨0, [104, 10]⟩, 1⟩ : Addr).d [[104], [10]].flatten :=
 example : ∃ d : List DirEntry, (∀ x ∈ visible d, x.complete = true) ∧ (∀ x ∈ d, x.name ≠ 7) :=
   ⟨[⟨3, false, true⟩, ⟨5, true, false⟩], by decide, by decide⟩
 
+/-! ## the store saves of `xvc file copy`, save by save -/
+
+open Gen (StoreId)
+
+theorem runSaves_has (s : Stores) (e : Ent) (l : List StoreId) (j : StoreId) (x : Ent) :
+    (runSaves s e l).has j x = (s.has j x || (decide (x = e) && l.contains j)) := by
+  induction l generalizing s with
+  | nil => simp [runSaves]
+  | cons i t ih =>
+    have : runSaves s e (i :: t) = runSaves (saveStore e i s) e t := rfl
+    rw [this, ih]
+    by_cases hx : x = e <;> by_cases hj : j = i <;> simp [saveStore, hx, hj]
+
+theorem pathAfterContent_take (l : List StoreId) (h : pathAfterContent l = true) (k : Nat) :
+    (l.take k).contains .xvcPath = true →
+      (l.take k).contains .contentDigest = true ∧ (l.take k).contains .textOrBinary = true ∧
+      (l.take k).contains .recheckMethod = true := by
+  intro hp
+  have hk : l.take k = l.take (min k l.length) := by
+    rcases Nat.le_total k l.length with h1 | h1
+    · rw [Nat.min_eq_left h1]
+    · rw [Nat.min_eq_right h1, List.take_of_length_le h1, List.take_of_length_le (Nat.le_refl _)]
+  rw [hk] at hp ⊢
+  have hm : min k l.length ∈ List.range (l.length + 1) := by
+    rw [List.mem_range]; have := Nat.min_le_right k l.length; omega
+  have := (List.all_eq_true.mp h) _ hm
+  simp only [hp, Bool.not_true, Bool.false_or, Bool.and_eq_true] at this
+  exact ⟨this.1.1, this.1.2, this.2⟩
+
+/-- **C07_store_order_prefix_safe** (any command, any order with the path store after the content stores): after ANY
+    prefix of the saves - a kill between any two of them - every entity that has a path also has a digest, a
+    text-or-binary mode and a recheck method, provided that held before the command. -/
+theorem C07_store_order_prefix_safe (l : List StoreId) (h : pathAfterContent l = true) (s : Stores)
+    (hs : PathsComplete s) (e : Ent) (k : Nat) : PathsComplete (runSaves s e (l.take k)) := by
+  intro x hx
+  rw [runSaves_has] at hx
+  simp only [runSaves_has]
+  rcases Bool.or_eq_true _ _ |>.mp hx with h0 | h1
+  · obtain ⟨a, b, c⟩ := hs x h0
+    simp [a, b, c]
+  · rw [Bool.and_eq_true] at h1
+    obtain ⟨a, b, c⟩ := pathAfterContent_take l h k h1.2
+    simp only [List.contains_eq_mem, decide_eq_true_eq] at a b c
+    have hxe : x = e := by simpa using h1.1
+    simp [a, b, c, hxe]
+
+/-- **C07_copy_store_order_prefix_safe**: the order in which `cmd_copy` saves its stores (table `Gen.copySaveOrder`,
+    regenerated from file/src/copy/mod.rs on every run) is such an order: whenever `xvc file copy` is killed between two
+    store saves, `xvc file list` / `recheck` never meet a path without digest and method; what the kill leaves are
+    components of an entity that no path names. -/
+theorem C07_copy_store_order_prefix_safe (s : Stores) (hs : PathsComplete s) (e : Ent) (k : Nat) :
+    PathsComplete (runSaves s e (Gen.copySaveOrder.take k)) :=
+  C07_store_order_prefix_safe _ (by decide) s hs e k
+
+/-- the uninterrupted run records all five components of the destination entity (and the table has all five stores) -/
+theorem C07_copy_saves_all_five (s : Stores) (e : Ent) (j : StoreId) :
+    (runSaves s e Gen.copySaveOrder).has j e = true := by
+  rw [runSaves_has]; cases j <;> simp [Gen.copySaveOrder]
+
+/-- **C07_copy_path_first_counterexample**: path and metadata saved FIRST (the nested closures flattened): killed after
+    these two saves, entity 7 has a path and neither digest nor method - `compare.rs` unwraps `None`; the uninterrupted
+    run of the same order is complete (why no test notices). -/
+theorem C07_copy_path_first_counterexample :
+    let bad : List StoreId := [.xvcPath, .xvcMetadata, .contentDigest, .textOrBinary, .recheckMethod]
+    let s0 : Stores := ⟨fun _ _ => false⟩
+    PathsComplete s0 ∧ ¬ PathsComplete (runSaves s0 7 (bad.take 2)) ∧ PathsComplete (runSaves s0 7 bad) ∧
+    pathAfterContent bad = false := by
+  refine ⟨by intro e h; simp at h, ?_, ?_, by decide⟩
+  · intro h
+    have := (h 7 (by decide)).1
+    revert this; decide
+  · intro x hx
+    rw [runSaves_has] at hx
+    simp only [runSaves_has]
+    simp at hx
+    simp [hx]
+
+/-- the hypothesis `PathsComplete` is satisfiable by a state with tracked entities -/
+example : PathsComplete ⟨fun _ x => x == 3 || x == 4⟩ := by intro e h; simp at h; simp [h]
+
 end Repo
 
 open Repo in
@@ -525,3 +605,11 @@ open Repo in
 #print axioms C07_link_full_fold_is_moveToCache
 open Repo in
 #print axioms C07_moveToCache_address_written_by_rename_only
+open Repo in
+#print axioms C07_store_order_prefix_safe
+open Repo in
+#print axioms C07_copy_store_order_prefix_safe
+open Repo in
+#print axioms C07_copy_saves_all_five
+open Repo in
+#print axioms C07_copy_path_first_counterexample
